@@ -21,10 +21,16 @@ def crash_enum(ctx, path, T, tag, conc=None, max_images=0, timeout=2400):
 
 
 def signature(f):
-    """Structural signature: finding kind, kind of mutation and file it hit (data files
-    normalised to N.domain), torn or not, and the operation in progress."""
+    """Structural signature: finding kind, the crash windows the image is structurally in
+    (decoded from the image by the harness: create-window, torn-index, truncate-window,
+    gc-swap, data-ahead), and the operation in progress. Images in no named window carry
+    the last mutation instead."""
     kind = f.get("kind", "?")
     img = f.get("image", "")
+    op = (f.get("opstr") or "").split(" ")[0]
+    tags = f.get("tags") or []
+    if tags:
+        return "C02 %s [%s] during %s" % (kind, ",".join(tags), op)
     toks = img.split(" ")
     what = toks[0] if toks else "?"
     fname = ""
@@ -33,9 +39,7 @@ def signature(f):
         stem = fname.split(".")[0]
         if stem.isdigit():
             fname = "N." + fname.split(".", 1)[1] if "." in fname else "<channel dir>"
-    op = (f.get("opstr") or "").split(" ")[0]
-    torn = " torn" if "[torn" in img else ""
-    return "C02 %s: crash after %s %s%s during %s" % (kind, what, fname, torn, op)
+    return "C02 %s [no named window: crash after %s %s] during %s" % (kind, what, fname, op)
 
 
 def crash_cfg(torn, tw, gc, cr, ms, mp):
